@@ -2,6 +2,8 @@
 use rspack_sources::{Mapping, OriginalLocation};
 
 pub mod codec;
+pub mod rec_hasher;
+pub mod rope;
 
 pub fn unhex(h: &str) -> Vec<u8> {
   if h == "." {
